@@ -71,14 +71,18 @@ where
     F: Fn(&Value) -> Vec<Value> + Send + Sync + 'static,
 {
     let mut all = Vec::new();
-    run_cases_from(cases, 0, timeout, f, &mut |_, recs| all.extend(recs));
+    run_cases_from(cases, 0, timeout, false, f, &mut |_, recs| all.extend(recs));
     all
 }
 
 /// As `run_cases`, starting at case `first`; the observations of case `i` are handed to `sink(i, records)` as soon
 /// as the case is finished, and the next case only starts after `sink` returned (so that an abrupt end of the
 /// process - the library's own panic hook calls process::exit - can be attributed to exactly one case).
-pub fn run_cases_from<F>(cases: Vec<Value>, first: usize, timeout: Duration, f: F, sink: &mut dyn FnMut(usize, Vec<Value>))
+///
+/// `echo`: after case i the case before it is executed once more and must yield the observation it yielded the first
+/// time; if not, the observation of a call depends on the calls made before it in the same process (a cache, a
+/// thread-local, a static with an incomplete key) and a record `history_dependent` is added for that case.
+pub fn run_cases_from<F>(cases: Vec<Value>, first: usize, timeout: Duration, echo: bool, f: F, sink: &mut dyn FnMut(usize, Vec<Value>))
 where
     F: Fn(&Value) -> Vec<Value> + Send + Sync + 'static,
 {
@@ -102,8 +106,20 @@ where
         let ff = f.clone();
         let start = next;
         std::thread::spawn(move || {
+            let mut before: Option<Vec<Value>> = None;
             for i in start..cs.len() {
-                let r = guard(|| ff(&cs[i]));
+                let mut r = guard(|| ff(&cs[i]));
+                if echo {
+                    if let (Some(first_time), Ok(recs)) = (&before, &mut r) {
+                        let all_ok = |v: &Vec<Value>| v.iter().all(|x| x["st"] == "ok");
+                        if let Ok(again) = guard(|| ff(&cs[i - 1])) {
+                            if all_ok(first_time) && all_ok(&again) && *first_time != again {
+                                recs.push(json!({"st": "history_dependent", "case": cs[i - 1].clone(), "after": cs[i].clone()}));
+                            }
+                        }
+                    }
+                    before = r.as_ref().ok().map(|recs| recs.iter().filter(|x| x["st"] != "history_dependent").cloned().collect());
+                }
                 if tx.send((i, r)).is_err() || ack_rx.recv().is_err() {
                     return;
                 }
